@@ -60,3 +60,7 @@ import BacVerif.Props.C18
 #print axioms BacVerif.C18.eqR_trans_noroute
 #print axioms BacVerif.C18.eqR_hash
 #print axioms BacVerif.C18.eqR_not_transitive
+-- mixed keys (wave 5)
+#print axioms BacVerif.C18.mixed_keys_distinct
+#print axioms BacVerif.C18.addr_keys_eq_iff
+#print axioms BacVerif.C18.coerced_eq_true
